@@ -199,6 +199,66 @@ NAMES = ["arg", "fooBar", "foo-bar", "foo bar", "foo.bar", "_foo", "1st", "class
 METHODS = ["get", "put", "post", "delete", "options", "head", "patch", "trace"]
 
 
+def _three_body_cases():
+    """COUNT: three (and four) request media types at once, every order: the argument's type selects the encoding, whichever position its
+    media type has in the list (first / middle / last)."""
+    cands = [("application/json", "array_int", {"type": "array", "items": {"type": "integer"}}, [[1, 2]]),
+             ("application/x-www-form-urlencoded", "inline_object", copy.deepcopy(OBJ_SCHEMA), OBJ_INSTANCES[:1]),
+             ("application/octet-stream", "file", {"type": "string", "format": "binary"}, ["BYTES:rawdata"]),
+             ("application/vnd.x+json", "str", {"type": "string"}, ["hello"]),
+             ("multipart/form-data", "inline_object", copy.deepcopy(OBJ_SCHEMA), OBJ_INSTANCES[:1])]
+    for n in (3, 4):
+        for combo in itertools.permutations(cands, n):
+            if n == 4 and combo[0][0] > combo[-1][0]:
+                continue      # four at once: half of the orders (each set still in 12 orders)
+            content = {m: {"schema": copy.deepcopy(sch)} for m, _k, sch, _i in combo}
+            p, item = _op(method="post", path="/b", body={"required": True, "content": content})
+            yield {"labels": [f"media{i + 1}={m}" for i, (m, _k, _s, _i2) in enumerate(combo)] + [f"bodies={n}"],
+                   "payload": {"doc": _doc(p, item, {}), "options": {}, "method": "post", "path": "/b", "params": [],
+                               "bodies": [{"media": m, "kind": k, "instances": inst} for m, k, _s, inst in combo], "key": f"body{n}/" + "+".join(k for _m, k, _s, _i3 in combo)}}
+
+
+def _twin_module_cases():
+    """Two operations under DIFFERENT tags whose endpoint module names coincide: each module sends its own operation."""
+    twins = [("listItems", "list_items"), ("listItems", "ListItems"), ("list-items", "list_items"), (None, None)]
+    for id1, id2 in twins:
+        for t1, t2 in (("orders", "users"), ("users", "orders")):
+            ok = {"200": {"description": "d"}}
+            paths = {"/reports/{id}": {"get": {**({"operationId": id1} if id1 else {}), "tags": [t1], "parameters": [{"name": "id", "in": "path", "required": True, "schema": {"type": "string"}}], "responses": ok}},
+                     "/reports/id": {("get" if id1 is None else "delete"): {**({"operationId": id2} if id2 else {}), "tags": [t2], "responses": ok}}}
+            yield {"labels": [f"twin-modules={id1!r}/{id2!r}", f"tags={t1},{t2}"],
+                   "payload": {"mode": "twin-modules", "doc": gen.base_doc(None, paths=paths), "key": "twin-modules"}}
+
+
+def _run_twin_modules(p):
+    res = gen.generate(p["doc"])
+    if res.crash or res.rejected:
+        return {"outcome": "rejected", "nontrivial": False}
+    import httpx
+    viol, steps = [], 0
+    with Sandbox(res.pkg_tree()) as sb:
+        for ep in res.endpoints:
+            mod = wire.endpoint_module(sb, ep)
+            cap = wire.Capture(lambda request: httpx.Response(200))
+            args = {"id": "r1"} if "{id}" in ep["path"] else {}
+            for variant in ("sync_detailed", "asyncio_detailed"):
+                r = wire.call(mod, variant, lambda: wire.make_client(sb, cap), cap, dict(args))
+                steps += 1
+                want = (ep["method"].upper(), ep["path"].replace("{id}", "r1"))
+                if not r["ok"] or not r["requests"]:
+                    viol.append({"oracle": "call-raises", "site": "endpoint", "key": p["key"], "detail": f"{ep['tag']}/{ep['module']} ({want[0]} {want[1]}) {variant}: {r.get('exc')!r}"})
+                    continue
+                got = (r["requests"][0]["method"], r["requests"][0]["path"])
+                if got != want:
+                    viol.append({"oracle": "wrong-operation-sent", "site": "endpoint", "key": p["key"], "detail": f"api/{ep['tag']}/{ep['module']}.py is {want[0]} {want[1]} but sends {got[0]} {got[1]}"})
+    seen, uniq = set(), []
+    for v in viol:
+        if v["oracle"] not in seen:
+            seen.add(v["oracle"])
+            uniq.append(v)
+    return {"violations": uniq, "outcome": "ok" if not uniq else "viol:" + uniq[0]["oracle"], "nontrivial": len(res.endpoints) == 2, "steps": steps}
+
+
 def _build(ch):
     comps = {}
     method = ch.pick("method", METHODS)
@@ -428,6 +488,8 @@ def cases(tier):
     yield from _override_cases(tier)
     yield from _matrix_cases()
     yield from _body_cases()
+    yield from _three_body_cases()
+    yield from _twin_module_cases()
     yield from _sequence_cases(tier)
     yield from _client_sequence_cases(tier)
     yield from _component_param_cases(tier)
@@ -901,6 +963,8 @@ def _run_url_forms(p):
 def run_case(p):
     if p.get("mode") == "url-forms":
         return _run_url_forms(p)
+    if p.get("mode") == "twin-modules":
+        return _run_twin_modules(p)
     if p.get("mode") == "sequence":
         return _run_sequence(p)
     if p.get("mode") == "client-sequence":
